@@ -637,6 +637,48 @@ def run(tier, seed):
         ck.violation('C02:%d:carry:%s' % (y, src), 'ty%d: %s is %r but %s, which the template says carries it, is %r in a solved return' % (
             y, src, w['observed_source'], dst, w['observed_destination']), dict(w, kind='failing-input', year=y, source=src, destination=dst), found=True)
     ck.cov['carries_equal_on_real_returns'] = n_eq
+    # N.C. D-400 lines 20a / 20b ("North Carolina income tax withheld: a. your tax withheld, b. spouse's tax withheld"; D-401: the N.C. tax
+    # withheld shown on Forms W-2 and 1099): recomputed from the state boxes of the SAME solution - every copy, both state lines of the
+    # 1099s, by owner - and compared with the two lines
+    n_w = 0
+    BOXES = {'w-2': [('box_15', 'box_17')], '1099-g': [('box_10a_1', 'box_11_1'), ('box_10a_2', 'box_11_2')],
+             '1099-int': [('box_15_1', 'box_17_1'), ('box_15_2', 'box_17_2')], '1099-div': [('box_14_1', 'box_16_1'), ('box_14_2', 'box_16_2')],
+             '1099-r': [('box_14_1_state', 'box_14_1'), ('box_14_2_state', 'box_14_2')]}
+    for (year, r) in results:
+        if not r['ok']:
+            continue
+        vals = r['solver']._v.values
+        if 'nc_d-400.20a' not in vals or 'nc_d-400.20b' not in vals:
+            continue
+        mine, spouse = Fraction(0), Fraction(0)
+        complete = True
+        for form, pairs in BOXES.items():
+            k_ = 0
+            while ('%s:%d.belongs_to' % (form, k_)) in vals:
+                owner = getattr(vals['%s:%d.belongs_to' % (form, k_)], 'name', str(vals['%s:%d.belongs_to' % (form, k_)]))
+                for (st, amt) in pairs:
+                    sv, av = vals.get('%s:%d.%s' % (form, k_, st)), vals.get('%s:%d.%s' % (form, k_, amt))
+                    if sv is not None and getattr(sv, 'name', str(sv)) == 'NC':
+                        if not isinstance(av, (int, float)) or isinstance(av, bool):
+                            complete = False
+                            continue
+                        if owner == 'spouse':
+                            spouse += Fraction(repr(float(av)))
+                        else:
+                            mine += Fraction(repr(float(av)))
+                k_ += 1
+        if not complete:
+            continue
+        n_w += 1
+        for line, want in (('20a', mine), ('20b', spouse)):
+            got = vals['nc_d-400.' + line]
+            if abs(Fraction(repr(float(got))) - want) > Fraction(1, 2) + Fraction(1, 10 ** 6):
+                ck.violation('C02:%d:nc_d-400.%s' % (year, line),
+                             'ty%d nc_d-400 line %s is %r in a solved return whose forms show %s of N.C. tax withheld for that owner' % (year, line, got, float(want)),
+                             {'kind': 'failing-input', 'year': year, 'form': 'nc_d-400', 'line': line, 'observed': got, 'expected': float(want),
+                              'state_boxes': {k2: str(getattr(v2, 'name', v2)) for k2, v2 in vals.items() if any(k2.endswith('.' + b) for ps in BOXES.values() for p2 in ps for b in p2)},
+                              'inputs': [(a_[0], a_[1]) for a_ in r['policy'].asked][:400]}, found=True)
+    ck.cov['nc_withholding_lines_recomputed_on_real_returns'] = n_w
     ck.cov['instruction_vs_real_returns'] = {'comparisons': n_cmp, 'instructions_compared_only_this_way': {str(y): len(v) for y, v in MONITOR_ONLY.items()}}
     catalog.validate(ck, H, summ, results)
     if per_year.get(2023):
